@@ -150,7 +150,7 @@ func tyJSON(t *gen.Ty) string { b, _ := json.Marshal(t); return string(b) }
 
 func genCases(ctx *vh.Ctx) {
 	c := gen.NewRand(ctx.Seed, "C20/case")
-	nTypes := 170
+	nTypes := 130
 	if ctx.Thorough {
 		nTypes = 6000
 	}
